@@ -253,3 +253,31 @@ def _function_table(ctx):
     ok = ok and len(tb) == 1 and "len(" in norm(sym.deep_inline(tb[0].args[2], env)) and "pointed_functions" in norm(sym.deep_inline(tb[0].args[2], env))
     off = [c for c in ast.walk(cm) if isinstance(c, ast.Call) and norm(c.func) == "components.Instruction" and norm(c.args[0]) == "'i32.const'" and norm(c.args[1]) == "0"]
     ctx.ob("C23.R6", F + ":IrToWasmCompiler.create_wasm_module", "the element segment places the collected functions, in collection order, at table offset 0 of a table of exactly that size", ok and bool(off), construct="elem-in-slot-order")
+    _memory_layout(ctx)
+
+
+def _memory_layout(ctx):
+    """R7: linear-memory layout of globals and literals"""
+    ctx.rule("C23.R7", "linear memory: every global and every literal gets the address range [global_memory, global_memory + its full size); the size reserved is the size of the object as given (not of a shortened copy), so neighbours never overlap", floor=4)
+    for q, coll, sizeexpr in (("IrToWasmCompiler.do_function", "frame.constants", None), ("IrToWasmCompiler.compile", "ir_module.variables", "amount")):
+        fn = ctx.fn(F, q)
+        site = F + ":" + q
+        loops = [l for l in ast.walk(fn) if isinstance(l, ast.For) and norm(l.iter) == coll]
+        if len(loops) != 1:
+            ctx.ob("C23.R7", site, "the loop that places %s was found" % coll, False, construct="layout-loop:%s" % coll)
+            continue
+        l = loops[0]
+        tv = [norm(e) for e in (l.target.elts if isinstance(l.target, ast.Tuple) else [l.target])]
+        adv = [n for n in l.body if isinstance(n, ast.AugAssign) and norm(n.target) == "self.global_memory" and isinstance(n.op, ast.Add)]
+        addr = [n for n in l.body if isinstance(n, ast.Assign) and norm(n.value) == "self.global_memory"]
+        rebound = [n for n in ast.walk(l) if isinstance(n, (ast.Assign, ast.AugAssign)) and any(norm(t) in tv for t in (n.targets if isinstance(n, ast.Assign) else [n.target]))]
+        ok_adv = len(adv) == 1 and (norm(adv[0].value) == "len(%s)" % tv[-1] if sizeexpr is None else norm(adv[0].value) == "%s.%s" % (tv[0], sizeexpr))
+        ctx.ob("C23.R7", site, "the next free address advances by the full size of the object just placed (%s)" % ("len of the literal" if sizeexpr is None else "Variable.amount"),
+               ok_adv and not rebound and bool(addr) and addr[0].lineno < adv[0].lineno, construct="advance-by-size:%s" % coll, node=(rebound[0] if rebound else (adv[0] if adv else l)),
+               detail="advance by %s; loop variable re-bound: %s" % (norm(adv[0].value) if adv else "?", bool(rebound)))
+        if sizeexpr is None:
+            app = [c for c in ast.walk(l) if isinstance(c, ast.Call) and norm(c.func) == "self.initial_memory.append"]
+            ok = len(app) == 1 and isinstance(app[0].args[0], ast.Tuple) and norm(app[0].args[0].elts[-1]) == tv[-1] and norm(app[0].args[0].elts[1]) == norm(addr[0].targets[0]) if addr else False
+            ctx.ob("C23.R7", site, "the literal's bytes are placed at that address, unmodified", ok, construct="literal-data")
+            lab = [n for n in l.body if isinstance(n, ast.Assign) and norm(n.targets[0]) == "self.global_labels[%s]" % tv[0]]
+            ctx.ob("C23.R7", site, "the literal's label resolves to that address", bool(lab) and bool(addr) and norm(lab[0].value) == norm(addr[0].targets[0]), construct="literal-label")
